@@ -5,6 +5,16 @@ rules and the delivery format (nothing from /verif). The sub-agents are then sta
 import json, os, subprocess, sys
 root, wave = sys.argv[1], int(sys.argv[2])
 EMPHASIS = {
+ 10: """   * what the DOCSTRINGS and the user guide of the public calls promise (argument forms they list, defaults they state, what they say is returned or raised): break one of those
+     promises for a form / default / return shape the tests do not exercise,
+   * the interaction of TWO library features that each work alone: markings x versioning, custom properties x extensions, bundles x stores, filters x composite sources,
+     patterns x indicators, interoperability mode x strict mode, `new_version` x deterministic ids, deep copies x stores, language content / granular `lang` markings x selectors,
+   * an object that goes through a PIPELINE of three or more public operations (create -> mark -> version -> bundle -> serialize -> parse -> store -> query -> compare): a defect that
+     only the composition shows (something dropped, re-ordered, re-typed, re-timestamped along the way),
+   * state that lives on a CLASS or a MODULE rather than on an instance (class attributes, decorator-made classes sharing a table, defaults built once),
+   * "cleanup" commits: dead-looking code removed that was load-bearing for one input class; a redundant-looking copy / sort / check dropped; an `else` branch merged into its `if`,
+   * laziness and iteration: results returned as generators or views instead of lists (or the reverse), iterating a container while it is modified, a second iteration over an
+     exhausted iterator, dictionary views kept across an insert.""",
  9: """   * the ENVIRONMENT the code runs in: the process time zone (TZ), locale, PYTHONHASHSEED, `os.listdir` order, the order of dictionary / set iteration over registries, file name case,
      path separators, a file that starts with a byte-order mark or uses another encoding / line ending, a directory that also holds unrelated files or sub-directories, symbolic links -
      a change that is right in the developer's environment and wrong in another, or that makes a result depend on one of these,
